@@ -989,6 +989,19 @@ tunnel_dns(int tun_fd, int dns_fd)
 		}
 		inpkt.fragment = new_down_fragment;
 
+		if (inpkt.len == 0 && new_down_fragment != 0) {
+			/* Not the first fragment of a packet, and we hold
+			   nothing to append it to: either we never saw this
+			   packet's beginning, or the server's seqno has come
+			   round (seven packets lost, not unlikely since small
+			   packets are sent just once) and it took our ack of
+			   the old packet for an ack of its first fragment.
+			   A packet without its beginning must not reach
+			   uncompress(); our next ack lets the server go on. */
+			send_ping_soon = 500;
+			break;
+		}
+
 		datalen = MIN(read - 2, sizeof(inpkt.data) - inpkt.len);
 
 		/* we are here only when read > 2, so datalen "always" >=1 */
